@@ -25,9 +25,9 @@ import (
 //     the go 1.21 loop semantics the module declares).
 func extractRest14(l *loaded, genDir, jsonDir string) error {
 	type loop struct {
-		Where string `json:"where"`
-		Class string `json:"class"`
-		Moves bool   `json:"moves"`
+		Where string   `json:"where"`
+		Class string   `json:"class"`
+		Moves bool     `json:"moves"`
 		Words []string `json:"words,omitempty"` // for a loop that fails the criterion: the words its function tests for (search hints)
 	}
 	var loops []loop
